@@ -926,7 +926,7 @@ def gen_free(rng, tier, maxb=None):
 
 def generate(rng, tier):
     cases = []
-    ndet, nfree = (420, 110) if tier == "quick" else (6000, 1500)
+    ndet, nfree = (420, 110) if tier == "quick" else (16000, 4000)
     for _ in range(ndet):
         cases.append(gen_det(rng, tier))
     for _ in range(nfree):
